@@ -2,7 +2,13 @@
 //! Request lines (one session = one debugger on one program):
 //!   C01 new <prog> <entry> <exit> <trace> <bytes>   abstract program for the model (from reftrace + the ELF file)
 //!   C01 break <gaddr> | C01 remove <gaddr> | C01 start | C01 continue
-//! Answer: `<outcome> p=<text bytes poked during the command, stably sorted by address>`.
+//!   C01 frame <k> | C01 bt | C01 locals     context-only commands (set_frame_into_focus, backtrace, read_local_variables):
+//!       they move / read the exploration context without running the program.  `exec` REWRITES `frame <k>` to
+//!       `frame <k> <ip|->` with the ip the debugger's unwinder reported for frame k (`-` = refused), which is what the
+//!       model focuses (its theorems hold for every ip); the oracle checks that ip against the reference call chain.
+//!       `bt` / `locals` are rewritten to `bt <ok|->` / `locals <ok|->` (did the unwinder / the DWARF evaluation succeed).
+//! Answer: `<outcome> p=<text bytes poked during the command, stably sorted by address>`; context-only commands answer
+//! `ctx <focus frame> <focus pc>` (the exploration context after the command) or `err`.
 use crate::live::*;
 use crate::util::*;
 use bugstalker::debugger::address::{Address, RelocatedAddress};
@@ -35,6 +41,47 @@ pub fn new_line(id: &str, p: &Prog) -> String {
         enc_list(&pcs.iter().collect::<Vec<_>>(), |a| format!("{:x}:{:x}", a, p.orig_byte(**a).unwrap_or(0))))
 }
 
+/// the specification's view of a session, used by the generator to know where the debuggee will be stopped (and how
+/// deep its call chain is there) and by the oracle
+pub struct SpecSim { pub bset: BTreeSet<u64>, pub idx: usize, pub started: bool, pub exited: bool }
+
+impl SpecSim {
+    pub fn new() -> Self { SpecSim { bset: BTreeSet::new(), idx: 0, started: false, exited: false } }
+    pub fn stopped(&self) -> bool { self.started && !self.exited }
+    /// `start` / `continue`: Some(Some(j)) = stops at trace position j, Some(None) = runs to the exit, None = refused
+    pub fn run(&mut self, p: &Prog, start: bool) -> Option<Option<usize>> {
+        let legal = if start { !self.started } else { self.started && !self.exited };
+        if !legal { return None; }
+        let from = if self.started { self.idx + 1 } else { 0 };
+        self.started = true;
+        let want = (from..p.trace.len()).find(|j| self.bset.contains(&p.trace[*j].pc));
+        match want { Some(j) => self.idx = j, None => self.exited = true }
+        Some(want)
+    }
+    /// instruction pointers of the frames of the real call chain at the current stop, innermost first (absolute)
+    pub fn frames(&self, p: &Prog) -> Vec<u64> {
+        let st = &p.trace[self.idx];
+        std::iter::once(p.base + st.pc).chain(st.chain.iter().rev().copied()).collect()
+    }
+}
+
+/// context-only commands a user interleaves after a stop: with probability 1/3 select a frame of the current call
+/// chain (mostly a near caller, sometimes any, sometimes one that does not exist), and/or inspect
+pub fn gen_ctx_after_stop(rng: &mut Rng, id: &str, depth: usize, req: &mut Vec<String>, out: &mut Out) {
+    if rng.chance(1, 3) {
+        let k = match rng.below(10) {
+            0..=4 => rng.range(1, depth.clamp(1, 4) as u64),
+            5..=7 => rng.range(0, depth as u64),
+            8 => 0,
+            _ => depth as u64 + 1 + rng.below(3),
+        };
+        req.push(format!("{id} frame {k}"));
+        out.count(if k == 0 { "ctx.frame0" } else if k as usize > depth { "ctx.frame_beyond" } else { "ctx.frame_caller" }, 1);
+        if rng.chance(1, 3) { req.push(format!("{id} locals")); out.count("ctx.locals", 1); }
+    }
+    if rng.chance(1, 6) { req.push(format!("{id} bt")); out.count("ctx.bt", 1); }
+}
+
 pub fn gen_requests(rng: &mut Rng, n: u64, out: &mut Out) -> Vec<String> {
     let mut req = vec![];
     for _ in 0..n {
@@ -44,23 +91,32 @@ pub fn gen_requests(rng: &mut Rng, n: u64, out: &mut Out) -> Vec<String> {
         req.push(new_line("C01", &p));
         out.count(&format!("prog.{name}"), 1);
         let mut set: Vec<u64> = vec![];
+        let mut sim = SpecSim::new();
         let pick = |rng: &mut Rng, set: &Vec<u64>| -> u64 {
             if !set.is_empty() && rng.chance(1, 4) { *rng.pick(set) } else { *rng.pick(&cands) }
         };
         for _ in 0..rng.below(5) {
             if !set.is_empty() && rng.chance(1, 5) {
-                let a = pick(rng, &set); req.push(format!("C01 remove {a:x}")); set.retain(|x| *x != a); out.count("op.remove_before_start", 1);
+                let a = pick(rng, &set); req.push(format!("C01 remove {a:x}")); set.retain(|x| *x != a); sim.bset.remove(&a); out.count("op.remove_before_start", 1);
             } else {
-                let a = pick(rng, &set); req.push(format!("C01 break {a:x}")); if !set.contains(&a) { set.push(a); } out.count("op.break_before_start", 1);
+                let a = pick(rng, &set); req.push(format!("C01 break {a:x}")); if !set.contains(&a) { set.push(a); } sim.bset.insert(a); out.count("op.break_before_start", 1);
             }
         }
         if rng.chance(1, 12) { req.push("C01 continue".into()); out.count("op.continue_before_start", 1); }
+        if rng.chance(1, 12) { req.push(format!("C01 {}", rng.pick(&["frame 0", "frame 1", "bt", "locals"]))); out.count("ctx.before_start", 1); }
         req.push("C01 start".into());
+        let mut stop = sim.run(&p, true).flatten();
+        if let Some(j) = stop { gen_ctx_after_stop(rng, "C01", p.trace[j].chain.len(), &mut req, out); }
         for _ in 0..rng.range(2, 28) {
             match rng.below(10) {
-                0..=5 => { req.push("C01 continue".into()); out.count("op.continue", 1); }
-                6..=7 => { let a = pick(rng, &set); req.push(format!("C01 break {a:x}")); if !set.contains(&a) { set.push(a); } out.count("op.break", 1); }
-                8 => { let a = pick(rng, &set); req.push(format!("C01 remove {a:x}")); set.retain(|x| *x != a); out.count("op.remove", 1); }
+                0..=5 => {
+                    req.push("C01 continue".into()); out.count("op.continue", 1);
+                    if let Some(r) = sim.run(&p, false) { stop = r; }
+                    if let (Some(j), true) = (stop, sim.stopped()) { gen_ctx_after_stop(rng, "C01", p.trace[j].chain.len(), &mut req, out); }
+                    else if rng.chance(1, 20) { req.push(format!("C01 {}", rng.pick(&["frame 0", "frame 1", "bt", "locals"]))); out.count("ctx.after_exit", 1); }
+                }
+                6..=7 => { let a = pick(rng, &set); req.push(format!("C01 break {a:x}")); if !set.contains(&a) { set.push(a); } if !sim.exited { sim.bset.insert(a); } out.count("op.break", 1); }
+                8 => { let a = pick(rng, &set); req.push(format!("C01 remove {a:x}")); set.retain(|x| *x != a); if !sim.exited { sim.bset.remove(&a); } out.count("op.remove", 1); }
                 _ => { req.push("C01 start".into()); out.count("op.start_again", 1); }
             }
         }
@@ -68,55 +124,141 @@ pub fn gen_requests(rng: &mut Rng, n: u64, out: &mut Out) -> Vec<String> {
     req
 }
 
-fn pokes_since(p: &Prog, base: u64) -> String {
-    let mut v: Vec<(u64, u64)> = vec![];
-    for e in ipose::take() {
-        if let ipose::Ev::Ptrace { req, addr, data, ret, .. } = e
-            && (req == libc::PTRACE_POKEDATA || req == libc::PTRACE_POKETEXT) && ret == 0
-            && addr >= base && p.in_text(addr - base) {
-            v.push((addr - base, data & 0xff));
+/// Independent observer of the ptrace traffic (shares nothing with the model or the debugger's bookkeeping): which text
+/// addresses currently carry an INT3 written by the debugger, and whether the FIRST resume (PTRACE_CONT / PTRACE_SINGLESTEP)
+/// after a breakpoint stop was reported to the user happens with the INT3 still in place under the thread's pc — then the
+/// instruction is not executed, the trap fires again at once and the same arrival is reported twice.
+#[derive(Default)]
+pub struct ResumeWatch { live_cc: BTreeSet<u64>, reported: Option<u64>, rip: Option<u64> }
+
+impl ResumeWatch {
+    /// digest the traffic of one command; returns (pokes answer token, failures)
+    pub fn feed(&mut self, p: &Prog, base: u64) -> (String, Vec<String>) {
+        let mut v: Vec<(u64, u64)> = vec![];
+        let mut fails = vec![];
+        for e in ipose::take() {
+            if let ipose::Ev::Ptrace { req, addr, data, ret, rip, .. } = e {
+                if ret != 0 { continue; }
+                match req {
+                    libc::PTRACE_POKEDATA | libc::PTRACE_POKETEXT if addr >= base && p.in_text(addr - base) => {
+                        v.push((addr - base, data & 0xff));
+                        if data & 0xff == 0xCC { self.live_cc.insert(addr - base); } else { self.live_cc.remove(&(addr - base)); }
+                    }
+                    libc::PTRACE_GETREGS | libc::PTRACE_SETREGS => self.rip = Some(rip.wrapping_sub(base)),
+                    libc::PTRACE_CONT | libc::PTRACE_SINGLESTEP => {
+                        if let Some(x) = self.reported.take() && self.live_cc.contains(&x) && self.rip.is_none_or(|r| r == x) {
+                            fails.push(format!("the first {} after the stop at {x:x} was reported is issued with the INT3 still at {x:x}: the instruction there cannot execute, the same arrival traps again",
+                                if req == libc::PTRACE_CONT { "PTRACE_CONT" } else { "PTRACE_SINGLESTEP" }));
+                        }
+                        self.rip = None;
+                    }
+                    _ => {}
+                }
+            }
         }
+        v.sort_by_key(|x| x.0); // stable
+        (enc_list(&v, |x| format!("{:x}:{:x}", x.0, x.1)), fails)
     }
-    v.sort_by_key(|x| x.0); // stable
-    enc_list(&v, |x| format!("{:x}:{:x}", x.0, x.1))
+    /// the command answered `stop <x>`
+    pub fn stop_reported(&mut self, x: u64) { self.reported = Some(x); }
+    pub fn no_stop(&mut self) { self.reported = None; }
 }
 
-/// one session inside a worker process; returns answers through `emit`, oracle failures as `!oracle <json>` lines
+/// stack pointer of the stopped debuggee, read straight through ptrace (not through the debugger)
+fn raw_rsp(pid: i32) -> Option<u64> {
+    let mut regs: libc::user_regs_struct = unsafe { std::mem::zeroed() };
+    let r = unsafe { libc::ptrace(libc::PTRACE_GETREGS, pid, 0usize, &mut regs as *mut _ as usize) };
+    if r == 0 { Some(regs.rsp) } else { None }
+}
+
+/// the exploration context as the answer of a context-only command
+pub fn ctx_answer(live: &Live, base: u64) -> String {
+    let e = live.dbg.ecx();
+    format!("ctx {} {:x}", e.frame_num(), u64::from(e.location().pc).wrapping_sub(base))
+}
+
+/// `frame <k>` / `bt` / `locals` on the real debugger. Returns (rewritten request, answer, oracle failures).
+/// `frames` = the real call chain at the current stop (innermost first, absolute ips) when the specification says the
+/// debuggee is stopped.
+pub fn ctx_command(id: &str, t: &[&str], live: &mut Live, base: u64, frames: Option<&[u64]>, emit: &mut dyn FnMut(String)) -> Option<(String, String, Vec<(String, String)>)> {
+    let mut fails = vec![];
+    match t {
+        ["frame", k, ..] => {
+            let k: u32 = k.parse().unwrap_or(u32::MAX);
+            match live.dbg.set_frame_into_focus(k) {
+                Ok(_) => {
+                    let ip = u64::from(live.dbg.ecx().location().pc);
+                    match frames {
+                        Some(fr) => match fr.get(k as usize) {
+                            Some(want) if *want == ip => {}
+                            Some(want) => fails.push(("focused-frame-is-not-the-kth-frame-of-the-call-chain".to_string(),
+                                format!("frame {k}: focus ip {:x}, frame {k} of the reference call chain is at {:x}", ip.wrapping_sub(base), want.wrapping_sub(base)))),
+                            None => fails.push(("frame-selected-beyond-the-call-chain".to_string(),
+                                format!("frame {k} accepted (ip {:x}), the reference call chain has {} frames", ip.wrapping_sub(base), fr.len()))),
+                        },
+                        None => {}
+                    }
+                    Some((format!("{id} frame {k} {:x}", ip.wrapping_sub(base)), ctx_answer(live, base), fails))
+                }
+                Err(_) => {
+                    // refusing a frame that exists is C05's subject (the backtrace is cut at a repeated return address): counted only
+                    if let Some(fr) = frames && (k as usize) < fr.len() { emit("!count ctx.frame-refused-inside-chain".into()); }
+                    Some((format!("{id} frame {k} -"), "err".into(), fails))
+                }
+            }
+        }
+        // whether the unwinder / the DWARF evaluation succeed at the focused pc is not C01's subject (C05, C06, C19): the outcome
+        // travels in the request (`ok` / `-`); what is compared is the exploration context afterwards
+        ["bt", ..] => {
+            let pid = live.dbg.ecx().pid_on_focus();
+            let ok = live.dbg.backtrace(pid).is_ok();
+            Some((format!("{id} bt {}", if ok { "ok" } else { "-" }), if ok { ctx_answer(live, base) } else { "err".into() }, fails))
+        }
+        ["locals", ..] => {
+            let ok = live.dbg.read_local_variables().map(|v| v.len()).is_ok();
+            Some((format!("{id} locals {}", if ok { "ok" } else { "-" }), if ok { ctx_answer(live, base) } else { "err".into() }, fails))
+        }
+        _ => None,
+    }
+}
+
+/// one session inside a worker process; emits `request<TAB>answer` lines (the request as rewritten with the observed frame
+/// ips), oracle failures as `!oracle <json>` lines
 fn session(lines: &[String], emit: &mut dyn FnMut(String)) {
     let t: Vec<&str> = lines[0].split(' ').collect();
     let p = Prog::load(t[2]);
     // the abstract program sent to the model must be the one of this binary
-    if lines[0] != new_line("C01", &p) { emit("stale-program".into()); return; }
-    let mut live = match Live::launch(&p) { Ok(l) => l, Err(e) => { emit(format!("launch-failed {e}")); return; } };
-    emit("ok".into());
+    if lines[0] != new_line("C01", &p) { emit(format!("{}\tstale-program", lines[0])); return; }
+    let mut live = match Live::launch(&p) { Ok(l) => l, Err(e) => { emit(format!("{}\tlaunch-failed {e}", lines[0])); return; } };
+    emit(format!("{}\tok", lines[0]));
     ipose::enable();
     let base = p.base;
     // oracle state: the specification's view
-    let mut bset: BTreeSet<u64> = BTreeSet::new();
-    let mut idx: usize = 0;
-    let mut started = false;
-    let mut exited = false;
+    let mut sim = SpecSim::new();
+    // real stack pointer - stack pointer of the reference run: constant over a run of a deterministic program (the environment
+    // strings of the two runs differ in size); fixed at the first stop
+    let mut shift: Option<i128> = None;
+    let mut watch = ResumeWatch::default();
     for line in &lines[1..] {
         let t: Vec<&str> = line.split(' ').collect();
-        ipose::take();
+        let mut req = line.clone();
         let ans = match t.as_slice() {
             ["C01", "break", a] => {
                 let a = u64::from_str_radix(a, 16).unwrap();
                 let r = live.dbg.set_breakpoint_at_addr(RelocatedAddress::from(base + a)).map(|_| ());
-                if r.is_ok() { bset.insert(a); }
+                if r.is_ok() { sim.bset.insert(a); }
                 if r.is_ok() { "ok".to_string() } else { "err".into() }
             }
             ["C01", "remove", a] => {
                 let a = u64::from_str_radix(a, 16).unwrap();
                 match live.dbg.remove_breakpoint(Address::Relocated(RelocatedAddress::from(base + a))) {
-                    Ok(Some(_)) => { bset.remove(&a); "ok".into() }
+                    Ok(Some(_)) => { sim.bset.remove(&a); "ok".into() }
                     Ok(None) => "none".to_string(),
                     Err(_) => "err".into(),
                 }
             }
             ["C01", c @ ("start" | "continue")] => {
                 let r = if *c == "start" { live.dbg.start_debugee_with_reason() } else { live.dbg.continue_debugee_with_reason() };
-                let legal = if *c == "start" { !started } else { started && !exited };
                 let ans = match &r {
                     Ok(StopReason::Breakpoint(_, pc)) => format!("stop {:x}", u64::from(*pc).wrapping_sub(base)),
                     Ok(StopReason::DebugeeExit(code)) => format!("exit {code}"),
@@ -124,29 +266,71 @@ fn session(lines: &[String], emit: &mut dyn FnMut(String)) {
                     Err(_) => "err".into(),
                 };
                 // ---- oracle: projection of the reference trace on the current breakpoint set
-                if legal {
-                    let from = if started { idx + 1 } else { 0 };
-                    started = true;
-                    let want = (from..p.trace.len()).find(|j| bset.contains(&p.trace[*j].pc));
-                    let want_s = match want { Some(j) => format!("stop {:x}", p.trace[j].pc), None => format!("exit {}", p.exit_code) };
-                    if ans != want_s {
-                        emit(format!("!oracle {}", json!({"key": "stop-is-not-the-projection-of-the-execution",
-                            "what": format!("{line}: debugger reports `{ans}`, the reference trace restricted to the breakpoints {:x?} says `{want_s}` (trace position {from})", bset),
-                            "replay": {"prog": p.name, "line": line}})));
+                let from = if sim.started { sim.idx + 1 } else { 0 };
+                match sim.run(&p, *c == "start") {
+                    Some(want) => {
+                        let want_s = match want { Some(j) => format!("stop {:x}", p.trace[j].pc), None => format!("exit {}", p.exit_code) };
+                        if ans != want_s {
+                            emit(format!("!oracle {}", json!({"key": "stop-is-not-the-projection-of-the-execution",
+                                "what": format!("{line}: debugger reports `{ans}`, the reference trace restricted to the breakpoints {:x?} says `{want_s}` (trace position {from})", sim.bset),
+                                "replay": {"prog": p.name, "line": line}})));
+                        } else if let (Some(j), Some(rsp)) = (want, raw_rsp(live.pid())) {
+                            // ---- oracle: after a reported stop the exploration context is the stop location, frame 0 (whatever
+                            // frame the user had selected before)
+                            let e = live.dbg.ecx();
+                            if e.frame_num() != 0 || u64::from(e.location().pc) != base + p.trace[j].pc {
+                                emit(format!("!oracle {}", json!({"key": "exploration-context-after-a-stop-is-not-the-stop-location",
+                                    "what": format!("{line}: debugger reports `{ans}`, its exploration context is frame {} pc {:x}", e.frame_num(), u64::from(e.location().pc).wrapping_sub(base)),
+                                    "replay": {"prog": p.name, "line": line}})));
+                            }
+                            // ---- oracle: the stop is THAT arrival: the debuggee's stack pointer is the one the reference run has there
+                            // (an arrival reported twice, or a later arrival at the same address in another activation, has another one)
+                            let sh = rsp as i128 - p.trace[j].rsp as i128;
+                            if shift.is_none() { shift = Some(sh); }
+                            if shift != Some(sh) {
+                                emit(format!("!oracle {}", json!({"key": "stop-is-not-the-arrival-the-execution-has-reached",
+                                    "what": format!("{line}: debugger reports `{ans}` as the reference trace does for position {j}, but the stack pointer {rsp:x} is not the one of that arrival ({:x} + {:x})", p.trace[j].rsp, shift.unwrap()),
+                                    "replay": {"prog": p.name, "line": line}})));
+                            }
+                        }
                     }
-                    match want { Some(j) => idx = j, None => { exited = true; } }
-                } else if ans != "err" {
-                    emit(format!("!oracle {}", json!({"key": "run-command-accepted-in-wrong-state", "what": format!("{line} answered {ans}"), "replay": {"prog": p.name}})));
+                    None => if ans != "err" {
+                        emit(format!("!oracle {}", json!({"key": "run-command-accepted-in-wrong-state", "what": format!("{line} answered {ans}"), "replay": {"prog": p.name}})));
+                    }
                 }
                 ans
             }
+            ["C01", rest @ ..] => {
+                let frames = if sim.stopped() { Some(sim.frames(&p)) } else { None };
+                match ctx_command("C01", rest, &mut live, base, frames.as_deref(), emit) {
+                    Some((r, ans, fails)) => {
+                        req = r;
+                        for (key, what) in fails {
+                            emit(format!("!oracle {}", json!({"key": key, "what": format!("{line}: {what}"), "replay": {"prog": p.name, "line": line}})));
+                        }
+                        // ---- oracle: a context-only command is refused exactly when there is no stopped debuggee
+                        if !sim.stopped() && ans != "err" {
+                            emit(format!("!oracle {}", json!({"key": "context-command-accepted-without-a-stopped-debuggee", "what": format!("{line} answered {ans}"), "replay": {"prog": p.name}})));
+                        }
+                        ans
+                    }
+                    None => "bad-op".into(),
+                }
+            }
             _ => "bad-op".into(),
         };
-        let pokes = pokes_since(&p, base);
+        // ---- oracle (ptrace boundary): never resume onto the INT3 of the stop that was just reported
+        let (pokes, resume_fails) = watch.feed(&p, base);
+        for what in resume_fails {
+            emit(format!("!oracle {}", json!({"key": "resumed-onto-the-breakpoint-just-reported", "what": format!("{line}: {what}"), "replay": {"prog": p.name, "line": line}})));
+        }
+        if matches!(t.get(1).copied(), Some("start" | "continue")) {
+            match ans.strip_prefix("stop ").and_then(|x| u64::from_str_radix(x, 16).ok()) { Some(x) => watch.stop_reported(x), None => if ans != "err" { watch.no_stop() } }
+        }
         // ---- oracle: the text differs from the ELF image exactly at the breakpoints (+ the entry point once started)
-        if started && !exited {
+        if sim.stopped() {
             if let Some(d) = text_diff(&p, live.pid(), base) {
-                let mut want: BTreeSet<u64> = bset.clone();
+                let mut want: BTreeSet<u64> = sim.bset.clone();
                 want.insert(p.entry);
                 let got: BTreeSet<u64> = d.keys().copied().collect();
                 let bad_bytes: Vec<_> = d.iter().filter(|(_, (_, l))| *l != 0xCC).collect();
@@ -157,11 +341,11 @@ fn session(lines: &[String], emit: &mut dyn FnMut(String)) {
                 }
             }
         }
-        emit(format!("{ans} p={pokes}"));
+        emit(format!("{req}\t{ans} p={pokes}"));
     }
     // program output must be the native one when the session ran to the end
     let got = live.finish();
-    if exited {
+    if sim.exited {
         if got != p.stdout {
             emit(format!("!oracle {}", json!({"key": "program-output-differs-from-native-run", "what": format!("got {:?} want {:?}", String::from_utf8_lossy(&got), String::from_utf8_lossy(&p.stdout)), "replay": {"prog": p.name}})));
         }
@@ -177,21 +361,25 @@ pub fn exec(req: &[String], out: &mut Out, tmpdir: &std::path::Path) {
     }
     let results = run_sessions(&sessions, tmpdir, "c01", par_default(), session_timeout(), |s, emit| session(s, emit));
     for (i, (s, (lines, how))) in sessions.iter().zip(results).enumerate() {
-        let mut answers: Vec<String> = vec![];
+        let mut pairs: Vec<(String, String)> = vec![];
         for l in lines {
+            if let Some(c) = l.strip_prefix("!count ") { out.count(c, 1); continue; }
             if let Some(j) = l.strip_prefix("!oracle ") {
                 let v: serde_json::Value = serde_json::from_str(j).unwrap();
                 out.oracle_fail(v["key"].as_str().unwrap(), v["what"].as_str().unwrap(), json!({"session": s.iter().map(|l| short(l)).collect::<Vec<_>>(), "detail": v["replay"]}));
-            } else { answers.push(l); }
+            } else if let Some((r, a)) = l.split_once('\t') { pairs.push((r.to_string(), a.to_string())); }
         }
-        out.oracle_evals += answers.len() as u64;
+        out.oracle_evals += pairs.len() as u64;
         if how != "ok" {
-            out.oracle_fail("debugger-crashed-or-hung", &format!("worker ended with {how} after {} of {} commands", answers.len(), s.len()),
+            out.oracle_fail("debugger-crashed-or-hung", &format!("worker ended with {how} after {} of {} commands", pairs.len(), s.len()),
                 json!({"session": s.iter().map(|l| short(l)).collect::<Vec<_>>()}));
         }
-        if i < 3 { out.sample(json!({"session": s.iter().map(|l| short(l)).collect::<Vec<_>>(), "answers": answers})); }
+        if i < 3 { out.sample(json!({"session": pairs.iter().map(|(r, a)| format!("{} => {}", short(r), short(a))).collect::<Vec<_>>()})); }
         for (k, l) in s.iter().enumerate() {
-            out.pair(l.clone(), answers.get(k).cloned().unwrap_or_else(|| format!("worker-{how}")));
+            match pairs.get(k) {
+                Some((r, a)) => out.pair(r.clone(), a.clone()),
+                None => out.pair(l.clone(), format!("worker-{how}")),
+            }
         }
     }
 }
